@@ -51,7 +51,7 @@ CONFIGS = {
     "MC_Flush": dict(CfgSet="CloseCfgs", SplitFlush="TRUE", MaxWrites=2, Closers='{"A", "B"}', MuxDroppers='{"A", "B"}', Faults='{"cutsrc", "cutsink", "softcut"}', MaxHandles=1, MaxCtr=1),
     # C16 / C08: keepalive next to a stream: time advances, a peer that is not polled is a dead peer, every teardown cause
     "MC_Ka_q": dict(CfgSet="KaCfgsQ", SameCfg="TRUE", MaxWrites=0, MaxNow=2, MaxHandles=1, MaxCtr=1),
-    "MC_Ka": dict(CfgSet="KaCfgsQ", SameCfg="FALSE", MaxWrites=0, MaxNow=2, MuxDroppers='{"A"}', MaxHandles=1, MaxCtr=1),
+    "MC_Ka": dict(CfgSet="KaCfgsQ", SameCfg="TRUE", MaxWrites=0, MaxNow=2, MuxDroppers='{"A"}', MaxHandles=1, MaxCtr=1),
     # C10: adversary frames towards A while a well-behaved stream runs
     "MC_Adv_q": dict(CfgSet="TinyCfg", MaxWrites=1, AdvMsgs="AdvSet", MaxAdv=2, MaxHandles=2, MaxCtr=1),
     "MC_Adv": dict(CfgSet="TinyCfg", MaxWrites=1, AdvMsgs="AdvSet", MaxAdv=3, MaxHandles=2, MaxCtr=1),
